@@ -15,6 +15,7 @@ partial def loop (h : IO.FS.Stream) (out : IO.FS.Stream) (st : DriverState) : IO
   let line := if line.endsWith "\n" then (line.dropEnd 1).toString else line
   let (st', resp) := handleLine st line
   out.putStrLn resp
+  out.flush
   loop h out st'
 
 def main : IO Unit := do
